@@ -552,6 +552,10 @@ func UpdateSnapshotCount(count int) {
 	if count == 0 {
 		panic("count must be positive")
 	}
+	if count > 256 {
+		// snapshot slots are keyed with a single byte
+		panic("count must not exceed 256")
+	}
 	ctx := storage.GetContext()
 	oldCount := getSnapshotCount(ctx)
 	if oldCount == count {
